@@ -367,7 +367,10 @@ func runNotationSign() int {
 			switch call.Meta {
 			case "empty":
 			case "disjoint":
-				meta = map[string]string{"team": "alpha", "stage": ""}
+				// keys of the caller's own, or keys in well-known name spaces that are neither reserved nor present on the artifact
+				// (a proper prefix of the reserved prefix, a sibling of it, the OCI and docker name spaces)
+				meta = []map[string]string{{"team": "alpha", "stage": ""},
+					{"org.opencontainers.image.title": "web", "io.cncf": "z", "io.cncf.notation/x": "1", "vnd.docker.reference.type": "y"}}[mix(*flagSeed, c.ID, "disj")%2]
 			case "colliding":
 				meta = map[string]string{artAnnKey: "43"}
 			case "reserved":
